@@ -534,6 +534,8 @@ def check_history(hist, stop_at_first=True):
                 structural = True
             elif target_of(op) is not None and not structural:
                 key, val = target_of(op)
+                if key[0] == 'c' and key[2] < 0:       # Python's negative index into the coefficient list
+                    key = ('c', key[1], key[2] + sum(1 for kk in before if kk[0] == 'c' and kk[1] == key[1]))
                 after = quantities(o)
                 if not feq(after.get(key, float('nan')), val, 1e-9):
                     V('edit-readback', key=list(key), got=after.get(key), expected=val)
